@@ -41,6 +41,7 @@ Sat(op, arg, v) ==
     [] op = ">=" -> v # N /\ (v = M \/ v >= arg)
     [] op = "in" -> v \notin {M, N} /\ \E i \in DOMAIN arg : arg[i] = v
     [] op = "!in" -> ~(v \notin {M, N} /\ \E i \in DOMAIN arg : arg[i] = v)
+    [] op = "match" -> v \notin {M, N} /\ v = arg    \* a number matches the cells equal to it, a string the cells it is found in: decided cell by cell
     [] op = "pred" -> v \in arg                \* a callable: true exactly on the set arg (may contain M / N)
 CurRows == [i \in DOMAIN sel |-> rows[sel[i]]]
 Whole == [i \in 1..Len(rows) |-> i]
@@ -75,7 +76,7 @@ DoIndex == /\ "index" \in Ops /\ sel = Whole
                 /\ hist' = Append(hist, Step("index", ks, RowsOut(s, ncols), ncols, ks))
            /\ fresh' = TRUE /\ UNCHANGED ncols
 WhereArgs == IF Lite THEN {1} ELSE {0, 1, 2, 3, -5}
-CmpOps   == IF Lite THEN {"=", "<", ">="} ELSE {"=","!=","<","<=",">",">="}
+CmpOps   == IF Lite THEN {"=", "<", ">="} ELSE {"=","!=","<","<=",">",">=","match"}
 InLists  == IF Lite THEN {<<1,0>>} ELSE {<<>>, <<1>>, <<0,2>>, <<2,2>>, <<3>>, <<1,0>>, <<2,0,1>>}
 PredSets == IF Lite THEN {{1,M}} ELSE {{0,2}, {M}, {1,M}, {}}
 WCols == IF ncols = 2 THEN {"a","b"} ELSE {"a","b","c"}
